@@ -323,6 +323,25 @@ fn main() {
                 }
             }
         });
+        // one side beyond 16 bits (flat or tall, so the point count stays small), same row walk
+        let nh = run.tier(48u64, 1500u64);
+        run.generate("one-side-beyond-16-bit", nh, false, 0.1, |ctx, idx, rng| {
+            let long = *rng.pick(&[65_535u32, 65_536, 65_537, 65_538, 70_001, 92_682, 131_073]) + if idx % 3 == 2 { rng.u32r(0, 500) } else { 0 };
+            let short = rng.u32r(1, 7);
+            let (w, h) = if idx % 2 == 0 { (long, short) } else { (short, long) };
+            let tl = Point::new(rng.i32r(-70_000, 100), rng.i32r(-70_000, 100));
+            match (idx / 2) % 3 {
+                0 | 1 => {
+                    let e = Ellipse::new(tl, Size::new(w, h));
+                    row_boundaries(ctx, "ellipse", &e, &|| format!("{:?}", e), rng);
+                }
+                _ => {
+                    let rr = RoundedRectangle::with_equal_corners(Rectangle::new(tl, Size::new(w, h)), Size::new(rng.u32r(0, w), rng.u32r(0, h)));
+                    row_boundaries(ctx, "rounded_rectangle", &rr, &|| format!("{:?}", rr), rng);
+                }
+            }
+            ctx.count("shapes_with_a_side_beyond_16_bits", 1);
+        });
         // a few large shapes (sizes beyond 255), all six primitives
         let nl = run.tier(96u64, 3000u64);
         run.generate("large-shapes", nl, false, 0.3, |ctx, idx, rng| {
